@@ -1459,12 +1459,13 @@ pub fn reader_cut_body(ch: &Chooser, cases: &[RCase], n_cuts: usize, stride: &dy
     let caught = vmc::catch(|| vrt::run(ch, cfg, || vrt::block_on(async_drive(case, script, src, w))));
     let how = |info: Option<&vrt::RunInfo>| {
         let mut s = format!("{} windows end at offsets {cuts:?}", describe(case, script, w, &format!("CutReader(pending_before_each_window={pend})")));
+        let show = |b: &[u8]| if case.format.is_text() { format!("{:?}", String::from_utf8_lossy(b)) } else { vmc::hex(b) };
         if len <= 96 {
-            s.push_str(&format!(" bytes={:?}", String::from_utf8_lossy(&case.bytes)));
+            s.push_str(&format!(" bytes={}", show(&case.bytes)));
         } else if let Some(&c) = cuts.first() {
             let a = c.saturating_sub(12);
             let b = (c + 12).min(len);
-            s.push_str(&format!(" bytes[{a}..{c}]={:?} bytes[{c}..{b}]={:?}", String::from_utf8_lossy(&case.bytes[a..c]), String::from_utf8_lossy(&case.bytes[c..b])));
+            s.push_str(&format!(" bytes[{a}..{c}]={} bytes[{c}..{b}]={}", show(&case.bytes[a..c]), show(&case.bytes[c..b])));
         }
         let _ = info;
         s
